@@ -542,7 +542,7 @@ impl OrdSpecImpl for Version { open spec fn obeys_cmp_spec() -> bool { true } op
         body = f.verbatim
         mk = '|s: &str| {'
         i = f.code.find(mk)
-        if i < 0 or 'take_while(1.., |x: char| AsChar::is_alphanum(x as u8) || x == \'-\')' not in body:
+        if i < 0 or 'take_while(1.., |x: char|' not in body:
             raise AnchorLost('identifier(): `Parser::map(take_while(1.., alnum or -), |s: &str| {..})`')
         k = i + len(mk) - 1
         e = match_brace(body, k)
